@@ -345,7 +345,9 @@ def run(R):
         Gc = random_cnf(rnd, ['S', 'A', 'B', 'C'])
         for w in rnd.sample(sorted(ref.words_of_len('ab', 3)) + sorted(ref.words_of_len('ab', 4)), 4):
             good = CA.cfg_print_cyk_matrix(CA.cfg_cyk_matrix(Gc, w), len(w))
-            for ans in (good, good.replace('{}', '{A}', 1)):
+            rows_ = good.split('\n')
+            prefix_table = CA.cfg_print_cyk_matrix(CA.cfg_cyk_matrix(Gc, w[:-1]), len(w) - 1)      # a correct but too small triangle (the table of a prefix)
+            for ans in (good, good.replace('{}', '{A}', 1), '\n'.join(rows_[1:]), rows_[-1], prefix_table):
                 g('cyk', {'G': desc(Gc), 'word': w, 'answer': ans}, lambda: ex_cyk(Gc, w, ans) + ((i, 'cnf', w, ans),), None, 'check_cyk_matrix')
     def protect(i):
         try: body(i)
